@@ -178,7 +178,12 @@ func (ex *Exec) globalValue(p *Path, o *types.Var) Value {
 		return Value{r, o.Type()}
 	}
 	key := "global:" + o.Pkg().Name() + "." + o.Name()
-	return ex.heapRead(p, key, o.Type(), "null")
+	v := ex.heapRead(p, key, o.Type(), "null")
+	if o.Pkg().Path() == "os" && o.Name() == "Args" {
+		ex.c.Trust("os.Args holds at least the program name (execve convention; protoc starts plugins that way)")
+		ex.assumeFact(p, "(>= "+ex.c.sliceLen(v)+" 1)")
+	}
+	return v
 }
 
 func (ex *Exec) evalUnary(p *Path, x *ast.UnaryExpr) Value {
